@@ -43,18 +43,37 @@ TOKENS = [
     'é'.encode(),
     L('[1001.100]  -> wl_registry@2.bind(1, "wl_compositor", 4, new id [unknown]@1)'),
     L('[1001.200]  -> wl_registry@2.bind(1, "wl_compositor", 4, new id wl_seat@9)'),
+    # a title with a quotation mark in it (libwayland does not escape): an odd number of quotes in the argument list
+    L('[1001.300]  -> xdg_toplevel@7.set_title("27" monitor")'),
     # a well-formed time stamp too large for a float (the gap to its neighbour is infinite)
     L('[' + '9' * 330 + '.000]  -> wl_display@1.sync(new id wl_callback@5)'),
 ]
 MODES = ['file', 'pipe_strict', 'pipe_surrogate', 'run']
 
 
-class Timeout(Exception):
-    pass
+class Timeout(BaseException):
+    """Not an Exception: the decoder's own `except Exception` must not be able to swallow the harness's alarm."""
+
+
+_fired = []
 
 
 def _alarm(signum, frame):
+    # fires again every 2 s for as long as the case goes on: a handler in the tool that swallows everything cannot
+    # keep the case running, and the flag says afterwards that the budget was exceeded even if the case "came back"
+    _fired.append(signum)
+    signal.setitimer(signal.ITIMER_VIRTUAL, 2.0)
+    signal.alarm(2)
     raise Timeout()
+
+
+CPU_BUDGET_S = 12.0          # processor time of one log case (an input of at most ~1 MiB; ordinary cases take milliseconds)
+MEM_BUDGET_MB = 1000         # growth of the worker's peak resident size during one case
+
+
+def _maxrss_mb():
+    import resource
+    return resource.getrusage(resource.RUSAGE_SELF).ru_maxrss / 1024.0
 
 
 def run_log(data, mode):
@@ -74,7 +93,14 @@ def run_log(data, mode):
     escaped = None
     extra = {}
     old = signal.signal(signal.SIGALRM, _alarm)
-    signal.alarm(40 if len(data) > 1000000 else 20)      # generous: the machine may be busy; normal cases take milliseconds
+    oldv = signal.signal(signal.SIGVTALRM, _alarm)
+    del _fired[:]
+    rss0 = _maxrss_mb()
+    signal.alarm(60 if len(data) > 1000000 else 40)      # wall clock, generous: the machine may be busy
+    # processor time of this process: does not depend on how busy the machine is.  A decoder that loops comes back
+    # only because the worker's address-space limit ends the loop with a MemoryError that the tool itself swallows -
+    # on a user's machine it would not come back; the budgets below report that.
+    signal.setitimer(signal.ITIMER_VIRTUAL, 3 * CPU_BUDGET_S if len(data) > 1000000 else CPU_BUDGET_S)
     try:
         with tempfile.TemporaryDirectory(prefix='verif-c18-') as d:
             path = os.path.join(d, 'in.log')
@@ -99,6 +125,8 @@ def run_log(data, mode):
                     a.command_args = ['/bin/sh', '-c', 'cat "$1" >&2; exit 3', 'sh', path]
                     extra['status'] = run_program(o, a, cm, ctl, ctl, input_func)
             except Timeout:
+                signal.setitimer(signal.ITIMER_VIRTUAL, 0)
+                signal.alarm(0)
                 escaped = 'timeout'
             except SystemExit as e:
                 extra['exit'] = e.code
@@ -106,8 +134,15 @@ def run_log(data, mode):
                 escaped = '%s: %s' % (type(e).__name__, str(e)[:200])
                 extra['traceback'] = traceback.format_exc()[-1200:]
     finally:
+        signal.setitimer(signal.ITIMER_VIRTUAL, 0)
         signal.alarm(0)
         signal.signal(signal.SIGALRM, old)
+        signal.signal(signal.SIGVTALRM, oldv)
+    if _fired and not escaped:
+        escaped = 'timeout'
+    grown = _maxrss_mb() - rss0
+    if grown > MEM_BUDGET_MB and not escaped:
+        escaped = 'memory: the case of %d input bytes raised the peak resident size by %d MB' % (len(data), grown)
     return sut._lines(out.buffer), sut._lines(err.buffer), escaped, extra
 
 
@@ -117,7 +152,7 @@ def eval_log(case):
     mode = case['mode']
     out, err, escaped, extra = run_log(data, mode)
     if escaped:
-        kind = 'log.timeout' if escaped == 'timeout' else 'log.escaped.' + escaped.split(':')[0]
+        kind = 'log.timeout' if escaped == 'timeout' else 'log.memory' if escaped.startswith('memory:') else 'log.escaped.' + escaped.split(':')[0]
         V.append(Violation(kind, case, {'escaped': escaped, 'traceback': extra.get('traceback'), 'input_preview': repr(data[:120])}))
     else:
         opened, closed = [], []
